@@ -236,7 +236,7 @@ def check_case(ctx: core.Ctx, p: gen_project.Project, kind: str, sde: str | None
                 di = d1.dist_info_dirs[0] if d1.dist_info_dirs else "?"
                 data_folder = di[: -len(".dist-info")] + ".data"
                 ls = model_lines_for(b1, d1, sde, p.meta.get("module", "m"), data_folder)
-                lines.append(ls[1])
+                lines.append(ls[2])
                 slots.append(("wheel", (b1, d1)))
             else:
                 tar_dir = d1.file_name[: -len(".tar.gz")]
